@@ -349,6 +349,18 @@ func (b *defaultBinder) preBindBody(req *protocol.Request, v interface{}) error 
 			return err
 		}
 		return proto.Unmarshal(body, msg)
+	case consts.MIMEApplicationHTMLForm:
+		if req.IsBodyStream() {
+			// (buffers the stream - PostArgs() then parses the buffer - and reports a body
+			// that could not be read; the form getters cannot)
+			_, err := req.BodyE()
+			return err
+		}
+		return nil
+	case consts.MIMEMultipartPOSTForm:
+		// (kept by the request: the getters use the same form)
+		_, err := req.MultipartForm()
+		return err
 	default:
 		return nil
 	}
